@@ -344,7 +344,10 @@ def gen_history(seed):
     nrx = 0
     many = bool(rng.chance(0.03))  # a training set of realistic size (hundreds of reactions)
     for _ in range(rng.randint(3, 9)):
-        c = rng.weighted([("add", 5), ("fit", 3), ("reset", 1), ("lik", 2), ("store", 1)])
+        c = rng.weighted([("add", 10), ("fit", 6), ("reset", 2), ("lik", 4), ("store", 2), ("opt", 1 if nrx > 0 and any(o["op"] == "fit" for o in ops) else 0)])
+        if c == "opt":
+            ops.append({"op": "opt", "sigma_min": rng.choice([0.25, 0.5, 1.0, 2.0])})
+            continue
         if c == "add":
             ops.append({"op": "add", "rxns": [gen_reaction(rng, cfg, ids) for _ in range(rng.randint(60, 150) if many else rng.randint(1, 5))]})
             nrx += 1
@@ -831,12 +834,40 @@ def exec_history(hist, workdir, collect=None, light=False):
           elif c == "reset":
               _quiet(gp.reset_reactions)
               rx_in = []
-          elif c == "fit":
+          elif c in ("fit", "opt"):
               if not rx_in:
                   continue  # nothing to fit (the only batch so far was interrupted)
-              if op.get("fault") and interrupted(op, gp.fit, x=None if op["x"] is None else np.array(op["x"]), sigma_min=op["sigma_min"]):
-                  stats["refits_after_interrupted_fit"] += 1
-              call("fit", gp.fit, x=None if op["x"] is None else np.array(op["x"]), sigma_min=op["sigma_min"])
+              if c == "opt":
+                  # hyper-parameter optimisation followed by the package's own refit: afterwards the
+                  # weights must solve the documented system for the optimum that scipy returned
+                  # and the noise floor the caller asked for.  The optimum is observed at the
+                  # scipy boundary (the package only prints it).
+                  if last_fit is None or getattr(gp, "alpha_mol_", "x") is None:
+                      continue
+                  import scipy.optimize as _so
+
+                  seen_res = []
+                  _orig_min = _so.minimize
+
+                  def _spy(*a, **k):
+                      r_ = _orig_min(*a, **k)
+                      seen_res.append(r_)
+                      return r_
+
+                  _so.minimize = _spy
+                  try:
+                      call("optimize_cov_and_noise_", gp.optimize_cov_and_noise_, refit=True, sigma_min=op["sigma_min"])
+                  finally:
+                      _so.minimize = _orig_min
+                  if not seen_res:
+                      stats["internal_state_unavailable"] += 1
+                      continue
+                  op = dict(op, op="fit", x=[float(v_) for v_ in seen_res[-1].x])
+                  stats["optimiser_refits_checked"] += 1
+              else:
+                  if op.get("fault") and interrupted(op, gp.fit, x=None if op["x"] is None else np.array(op["x"]), sigma_min=op["sigma_min"]):
+                      stats["refits_after_interrupted_fit"] += 1
+                  call("fit", gp.fit, x=None if op["x"] is None else np.array(op["x"]), sigma_min=op["sigma_min"])
               R = ref_solve(op["x"], op["sigma_min"])
               last_fit = (R, op)
               stats["fits"] += 1
@@ -1229,6 +1260,7 @@ def coverage(done, tier):
             "histories_with_orbital_derivative_entries": tot["cfg_deriv"],
             "histories_with_several_kernels": tot["cfg_multi_kernel"],
             "exchange_only_store_calls": tot["stores_exchange_only"],
+            "optimiser_refits_checked": tot["optimiser_refits_checked"],
             "sessions_of_a_second_model_in_between": tot["sessions_of_a_second_model_in_between"],
         },
         "spin_modes": {k[5:]: v for k, v in tot.items() if k.startswith("mode_")},
